@@ -372,6 +372,42 @@ def h_prog(ctx, pname, D, P, route='replay'):
         ctx.eq(plain(fy.x.data), Y, 'forward value of the output after two sweeps')
 
 
+def h_pow_complex_reverse(ctx, D, P):
+    """reverse sweep through (real polynomial) ** (complex scalar): completes, and the adjoint
+    identity holds against forward mode (central differences of the forward propagation).  The
+    symbolic layer has no complex power atom: decided on the float build at concrete points."""
+    algopy = symx.load_algopy()
+    if ctx.mode == 'sym':
+        ctx.fact(True, 'complex scalar exponent: decided on the float build')
+        ctx.eq(S.const(0), S.const(0), 'adjoint identity')
+        return
+    rng = np.random.RandomState(5)
+    for label, f in (('imag(x**(1+1j))*x', lambda x: algopy.imag(x ** (1 + 1j)) * x), ('real(x**(0.5-2j))', lambda x: algopy.real(x ** (0.5 - 2j)))):
+        X = rng.rand(D, P, 3) + 0.5
+        cg = algopy.CGraph()
+        fx = algopy.Function(algopy.UTPM(X.copy()))
+        fy = f(fx)
+        cg.trace_off()
+        cg.independentFunctionList = [fx]
+        cg.dependentFunctionList = [fy]
+        YB = rng.randn(*fy.x.data.shape)
+        try:
+            cg.pullback([algopy.UTPM(YB.copy())])
+        except Exception as e:
+            ctx.fact(False, '%s: the reverse sweep raised %s' % (label, str(e).strip().splitlines()[-1][:100] if str(e).strip() else type(e).__name__))
+            continue
+        XB = fx.xbar.data
+        V = rng.randn(*X.shape)
+        h = 1e-4
+        F = lambda e: f(algopy.UTPM(X + e * V)).data
+        W = (8 * (F(h) - F(-h)) - (F(2 * h) - F(-2 * h))) / (12 * h)
+        for p in range(P):
+            for d in range(D):
+                lhs = sum(np.sum(XB[k, p] * V[d - k, p]) for k in range(d + 1))
+                rhs = sum(np.sum(YB[k, p] * W[d - k, p]) for k in range(d + 1))
+                ctx.fact(abs(lhs - rhs) <= 1e-6 * (1 + abs(rhs)), '%s: adjoint identity order %d dir %d (%r vs %r)' % (label, d, p, lhs, rhs))
+
+
 def h_aliased_dependents(ctx, which, D, P):
     """two dependents that share memory (z and a view of z, or z twice): the sweep returns
     zbar^T dz/dx + wbar^T dw/dx, i.e. both seeds count"""
@@ -466,6 +502,7 @@ def units(tier, seed):
                             {'pname': '%s-use:%s' % (where, prog.name), 'D': 2, 'P': Pp}, dict(opts)))
     for which in ('z[0]', 'z[::-1]', 'z', 'z[1:]'):
         out.append(Unit('C03/dependents sharing memory: [z, %s]/D2,P2' % which, 'symx.props.c03', 'h_aliased_dependents', {'which': which, 'D': 2, 'P': 2}, dict(opts)))
+    out.append(Unit('C03/real polynomial ** complex scalar in reverse mode (float-decided)/D3,P2', 'symx.props.c03', 'h_pow_complex_reverse', {'D': 3, 'P': 2}, dict(opts)))
     n = 12 if tier == 'quick' else 160
     for i in range(n):
         length = 3 + (i % 4) if tier == 'quick' else 3 + (i % 8)
